@@ -125,7 +125,14 @@ type config struct {
 	DenyConn [][2]int      `json:"denyConnect,omitempty"`
 	DenySrc  []string      `json:"denyConnectSrcIP,omitempty"`
 	Init     [][]int       `json:"initialConns"`
+	// PreTags: connection-manager tags (name index, weight) that other subsystems of the relay
+	// host put on a peer before it first asks the relay for anything: the "previous values"
+	PreTags [][][2]int `json:"preTags,omitempty"`
 }
+
+// foreignTags are tag names of other subsystems; the relay never uses them.
+var foreignTags = []string{"kad", "bitswap", "pubsub"}
+var foreignWeights = []int{1, 5, 10, 20, 50}
 
 func drawConfig(rt *rapid.T) config {
 	c := config{
@@ -174,6 +181,18 @@ func drawConfig(rt *rapid.T) config {
 			}
 		}
 		c.Init = append(c.Init, l)
+	}
+	// previous tag values: about a third of the peers carry 1-2 tags of other subsystems
+	c.PreTags = make([][][2]int, c.NPeers)
+	for i := 0; i < c.NPeers; i++ {
+		if rapid.IntRange(0, 2).Draw(rt, "preTagged") != 0 {
+			continue
+		}
+		first := rapid.IntRange(0, len(foreignTags)-1).Draw(rt, "preTag")
+		n := rapid.IntRange(1, 2).Draw(rt, "nPreTags")
+		for j := 0; j < n; j++ {
+			c.PreTags[i] = append(c.PreTags[i], [2]int{(first + j) % len(foreignTags), rapid.SampledFrom(foreignWeights).Draw(rt, "preTagWeight")})
+		}
 	}
 	return c
 }
@@ -241,6 +260,47 @@ type peerSt struct {
 	conns     []*connSt
 	rs        rsv
 	tagExcuse bool // known finding kfTag
+
+	// connection-manager state of the peer as it was before it first asked the relay for
+	// anything (observed, not computed); emptied when the peer's last connection closes
+	// (the connection manager forgets a peer without connections)
+	base tagSnap
+	// since the peer last held nothing: it held a reservation / a circuit at some audit,
+	// granted refreshes, circuits it took part in
+	held, heldRsvp bool
+	refreshes      int
+	circs          int
+}
+
+// tagSnap is what GetTagInfo reports about a peer: the tags and the total value.
+type tagSnap struct {
+	known bool // the connection manager has an entry for the peer
+	tags  map[string]int
+	value int
+}
+
+func (w *world) tagSnapOf(p *peerSt) tagSnap {
+	ts := tagSnap{tags: map[string]int{}}
+	if ti := w.h.CM.GetTagInfo(p.id); ti != nil {
+		ts.known = true
+		ts.value = ti.Value
+		for k, v := range ti.Tags {
+			ts.tags[k] = v
+		}
+	}
+	return ts
+}
+
+func (a tagSnap) sameAs(b tagSnap) bool {
+	if a.value != b.value || len(a.tags) != len(b.tags) {
+		return false
+	}
+	for k, v := range a.tags {
+		if bv, ok := b.tags[k]; !ok || bv != v {
+			return false
+		}
+	}
+	return true
 }
 
 type circ struct {
@@ -300,6 +360,10 @@ type world struct {
 	// generator heuristic: a reservation holder has direct and limited connections side by
 	// side; some of the next steps close its connections in a generated order
 	mixedPending int
+	// generator heuristic: a peer whose reservation was collected while it still takes part in
+	// open circuits; some of the next steps let it reserve again and open further circuits to it
+	regrant  *peerSt
+	regrantN int
 	goneProbeN   int
 	goneIP       string
 	excluded     bool
@@ -390,6 +454,16 @@ func newWorld(rt *rapid.T, cfg config) *world {
 		}
 	}
 	synctest.Wait()
+	for i, l := range cfg.PreTags {
+		for _, tg := range l {
+			h.CM.TagPeer(w.peers[i].id, foreignTags[tg[0]], tg[1])
+			w.label("tagvalue:peer-with-previous-tags")
+		}
+	}
+	// the previous values: what the connection manager says about every peer before any request
+	for _, p := range w.peers {
+		p.base = w.tagSnapOf(p)
+	}
 	return w
 }
 
